@@ -14,6 +14,10 @@ three resource dimensions per type.  A resource list is 3 tokens, `_` = key abse
   del <pod> <assigned> <groups>                                                          onPodDelete
      (the model's updatePodOps / deletePodOps decide which ledger ops happen, per device type)
   addq / refq / updq / delq: as add / ref / upd / del without output (exhaustive stream: one dump per history)
+  xh <k> (<code> <a> <b> <c>)*k    exhaustive small-scope stream: a whole history on device type 1, dimension 0, ONE
+     output line.  code 0: add pod a minor b amount c; 1: rem pod a minor b amount c; 2: refresh totals a b of minors 0 1;
+     3: allocate (request b per device, desired 1, nil scorer) and commit the result for pod a.
+     output: xh <t f u of minor 0> <t f u of minor 1> | (<k> (<minor> <amount>)*k for pod 1, pod 2) | <wf> <exact> <sched> | <chosen minor or -1 per alloc>
 After ref/add/rem/upd/del: the ledger, value-based (missing = 0), only devices with a non-zero entry:
   d <type> <minor> <total>*3 <free>*3 <used>*3        p <type> <pod> <k> (<minor> v v v)*
 then  x <wf> <exact> <sched>   the history predicates so far (histWFB / histExact / histSched of Model/C07Hist.lean, all types)
@@ -228,6 +232,35 @@ def runLine (d : DState) (line : String) : DState × List String :=
         let a : AllocReq := { req, desired := cnt, npcie := 0, required, preferred }
         let (w, _) := viewOf s view
         (d, [showAlloc true (allocate w a)] ++ covLine w a (allocate w a))
+      | none => (d, ["bad-op"])
+    else if kind = "xh" then
+      match (do
+          let k ← pNat
+          let ops ← pRep k (do let c ← pNat; let a ← pNat; let b ← pNat; let x ← pNat; pure (c, a, b, x))
+          pEnd
+          pure ops).run' rest with
+      | some ops =>
+        let t := 1
+        let (d', allocs) := ops.foldl (fun (acc : DState × List String) o =>
+          let (d, allocs) := acc
+          let (c, a, b, x) := o
+          if c = 0 then (applyOps d t [Op.add a [(b, [some (x : Int)])]], allocs)
+          else if c = 1 then (applyOps d t [Op.remove a [(b, [some (x : Int)])]], allocs)
+          else if c = 2 then (applyOps d t [Op.refresh (mkMap [(0, [some (a : Int)]), (1, [some (b : Int)])])], allocs)
+          else
+            let rq : AllocReq := { req := [some (b : Int)], desired := 1, npcie := 0, required := [], preferred := [] }
+            match allocate (nodeGet d.node t) rq with
+            | none => (d, allocs ++ ["-1"])
+            | some ms => (applyOps d t [Op.add a (allocList rq ms)], allocs ++ ms.map toString)) (d, [])
+        let s := nodeGet d'.node t
+        let dev (m : Nat) : String := s!"{drVal s.total m 0} {drVal s.free m 0} {drVal s.used m 0}"
+        let pod (p : Nat) : String :=
+          match s.pods.find? (fun e => e.1 == p) with
+          | none => "-"
+          | some e =>
+            let ms := sortU (e.2.map (·.1))
+            s!"{ms.length}" ++ String.join (ms.map (fun m => s!" {m} {drVal e.2 m 0}"))
+        (d', [s!"xh {dev 0} {dev 1} | {pod 1} {pod 2} | {if d'.wf then 1 else 0} {if d'.exact then 1 else 0} {if d'.sched then 1 else 0} | {" ".intercalate allocs}"])
       | none => (d, ["bad-op"])
     else (d, ["bad-op"])
   | [] => (d, ["bad-op"])
